@@ -11,6 +11,7 @@ import Rare.Proofs.C07AccOpt
 import Rare.Proofs.C07GroupKey
 import Rare.Proofs.C07NumF64Err
 import Rare.Proofs.C07NumF64Acc
+import Rare.Proofs.C07NumF64Var
 import Rare.Gen.C07
 /-!
 C07 – Aggregators compute the exact fold of their sample history.
@@ -1174,6 +1175,45 @@ theorem num_f64_mean_error (keep : Bool) (M : Rat) (hM : M ≤ ((2 ^ 1021 : Nat)
   exact ⟨runFv_samples keep l, mean_acc_error keep M hM l hne hn hl⟩
 
 
+/-- ACCUMULATED ERROR OF `M2` AND OF `Variance()` (the "sample standard deviation … within floating-point tolerance" part,
+with the tolerance explicit).  For every non-empty list of at most 2^53 finite samples of magnitude at most `M = 2^e`
+(`e ≤ 480`, so that no product of two differences overflows; smaller data are covered by `e = 0`):
+
+* the accumulated `M2` (field `variance`) is finite, `|M2| ≤ 8n·M²`, and differs from the EXACT `Σ (x − mean)²` of the
+  sample values by at most `G = (15·n(n+1)/2 + 55n)·u·M² + 2n·η`;
+* with at least two samples `Variance()` is finite and differs from the exact sample variance `Σ (x − mean)²/(n−1)` by
+  at most `G/(n−1) + 16·u·M² + η` – about `7.5·n·u·M²`: linear in the number of samples, like the mean.
+
+Every rounding of the update `variance += (val − oldMean)·(val − mean)` is accounted for: the two differences (each also
+carries the accumulated error of its mean, `num_f64_mean_error`), the product, and the sum, whose magnitude is bounded by
+monotone rounding against the float `8K·M²` (`Proofs/C07NumF64Var.lean`).  The list is arbitrary: the bound holds after
+every prefix.  `StdDev()` is `math.Sqrt` of `Variance()`, one more correctly rounded operation (not bounded here). -/
+theorem num_f64_variance_error (keep : Bool) (e : Nat) (he : e ≤ 480) (l : List F64) (hne : l ≠ [])
+    (hn : l.length ≤ 9007199254740992)
+    (hl : ∀ x ∈ l, x.isFinite = true ∧ -((2 ^ e : Nat) : Rat) ≤ x.toRat ∧ x.toRat ≤ ((2 ^ e : Nat) : Rat)) :
+    let r := runFv keep l
+    let q := l.map F64.toRat
+    let n : Rat := (l.length : Rat)
+    let M : Rat := ((2 ^ e : Nat) : Rat)
+    let G := (15 * (n * (n + 1)) / 2 + 55 * n) * (M * (M * uF)) + 2 * n * F64.etaF
+    let T := G / (n - 1) + 16 * (M * M * uF) + F64.etaF
+    (r.variance.isFinite = true ∧ -(n * (8 * M * M)) ≤ r.variance.toRat ∧ r.variance.toRat ≤ n * (8 * M * M) ∧
+      r.variance.toRat - m2 q ≤ G ∧ m2 q - r.variance.toRat ≤ G) ∧
+    (2 ≤ l.length → r.varianceF.isFinite = true ∧
+      r.varianceF.toRat - sampleVariance q ≤ T ∧ sampleVariance q - r.varianceF.toRat ≤ T) := by
+  intro r q n M G T
+  exact ⟨var_acc_error keep e he l hne hn hl, fun h2 => variance_acc_error keep e he l h2 hn hl⟩
+
+/-- Just outside the magnitude class of `num_f64_variance_error` (but inside that of `num_f64_mean_error`): for the two
+samples `2^600, −2^600` the mean is exactly 0, yet the product `(−2^601)·(−2^600)` overflows – `M2`, `Variance()` and
+`StdDev()` are `+Inf` (the exact `M2 = 2^1201` exceeds `MaxFloat64`): beyond the class there is no finite result to bound. -/
+theorem num_f64_variance_overflow_counterexample :
+    let l := [F64.ofSM false (1623 * 4503599627370496), F64.ofSM true (1623 * 4503599627370496)]
+    (∀ x ∈ l, x.isFinite = true ∧ -((2 ^ 600 : Nat) : Rat) ≤ x.toRat ∧ x.toRat ≤ ((2 ^ 600 : Nat) : Rat)) ∧
+    (runFv false l).mean.toRat = 0 ∧ (runFv false l).variance = F64.inf false ∧
+    (runFv false l).varianceF = F64.inf false ∧ (runFv false l).stdDev = F64.inf false := by
+  decide +kernel
+
 /-! ### non-vacuity of the float theorems -/
 
 /-- "1.5", "x", "-2", "1e999" (range error), "0x1p-1", "nan". -/
@@ -1208,6 +1248,11 @@ example : IsSortedF false [F64.nan, F64.zero true, F64.zero false, F64.ofInt 1] 
 /-- all samples `+Inf`: `Min()` is `+Inf` (was `MaxFloat64` before bda1842); the overflow witness is real -/
 example : (runFv false [F64.inf false, F64.inf false]).min = F64.inf false := by decide +kernel
 example : (runFv false [F64.neg maxF64, maxF64]).mean = F64.inf false := by decide +kernel
+/-- hypotheses of `num_f64_variance_error` (e = 0) on 0.1, 0.2, 0.3: `M2` is rounded (it is not the exact value). -/
+example : (runFv false [F64.ofRat (1/10), F64.ofRat (2/10), F64.ofRat (3/10)]).variance.toRat ≠
+    m2 ([F64.ofRat (1/10), F64.ofRat (2/10), F64.ofRat (3/10)].map F64.toRat) := by decide +kernel
+example : ∀ x ∈ [F64.ofRat (1/10), F64.ofRat (2/10), F64.ofRat (3/10)],
+    x.isFinite = true ∧ -((2 ^ 0 : Nat) : Rat) ≤ x.toRat ∧ x.toRat ≤ ((2 ^ 0 : Nat) : Rat) := by decide +kernel
 /-- hypotheses of `num_f64_mean_error` on 0.1, 0.2, 0.3 (M = 1): the mean IS rounded, and the bound holds with room. -/
 example : ∀ x ∈ [F64.ofRat (1/10), F64.ofRat (2/10), F64.ofRat (3/10)],
     x.isFinite = true ∧ -(1 : Rat) ≤ x.toRat ∧ x.toRat ≤ 1 := by decide +kernel
